@@ -796,13 +796,15 @@ func genRange(r *hlib.Rand, blocks []specBlock) (int64, int64) {
 			hi = b.maxt
 		}
 	}
-	switch r.Intn(6) {
+	switch r.Intn(8) {
 	case 0:
 		return lo - 10, hi + 10
 	case 1:
 		t := r.I64Range(lo, hi)
 		return t, t
-	case 2: // on block and chunk boundaries (half-open block ranges, closed query ranges)
+	case 2, 3, 4: // on block and chunk boundaries (half-open block ranges, closed query ranges): both ends are one of
+		// MinTime, MaxTime, MaxTime-1, MinTime-1 of a block, the first/last timestamp of a chunk or one next to it;
+		// a third of these are point ranges; adjacent blocks share MaxTime = MinTime
 		pick := func() int64 {
 			b := blocks[r.Intn(len(blocks))]
 			cands := []int64{b.mint, b.maxt, b.maxt - 1, b.mint - 1}
@@ -815,6 +817,9 @@ func genRange(r *hlib.Rand, blocks []specBlock) (int64, int64) {
 			return cands[r.Intn(len(cands))]
 		}
 		a, b := pick(), pick()
+		if r.Chance(1, 3) {
+			b = a
+		}
 		if a > b {
 			a, b = b, a
 		}
